@@ -232,3 +232,44 @@ pub fn case_partner(c: char) -> Option<char> {
         None
     }
 }
+
+/// characters that some OTHER character folds into although they are not partners (K <- KELVIN
+/// SIGN, ω/Ω <- OHM SIGN, д/Д <- U+1C81, s <- ſ, ...): computed once over all scalar values
+fn third_variant_targets() -> &'static std::collections::HashSet<char> {
+    static T: OnceLock<std::collections::HashSet<char>> = OnceLock::new();
+    T.get_or_init(|| {
+        let mut set = std::collections::HashSet::new();
+        for x in all_scalars() {
+            let l = lower1(x);
+            let u = upper1(x);
+            for y in [l, u] {
+                if y != x {
+                    // x folds to y; if x is not y's clean partner, y (and its partner) are irregular
+                    if case_partner(y) != Some(x) {
+                        set.insert(y);
+                        if let Some(p) = case_partner(y) {
+                            set.insert(p);
+                        }
+                        set.insert(x);
+                    }
+                }
+            }
+            // multi-character mappings (ß -> SS, ŉ, ǰ, ...) make the character irregular
+            if x.to_lowercase().count() > 1 || x.to_uppercase().count() > 1 {
+                set.insert(x);
+            }
+        }
+        set
+    })
+}
+
+/// case-less, or a member of a one-to-one case pair that no third character folds into
+pub fn case_regular(c: char) -> bool {
+    if third_variant_targets().contains(&c) {
+        return false;
+    }
+    match case_partner(c) {
+        Some(p) => !third_variant_targets().contains(&p),
+        None => lower1(c) == c && upper1(c) == c,
+    }
+}
